@@ -17,6 +17,13 @@ fn sorted_ranges(set: &HashMap<u64, RangeInclusive<u64>>) -> Vec<&RangeInclusive
 
 impl<T: Qcow2IoOps> Qcow2Dev<T> {
     fn add_used_cluster_to_set(ranges: &mut HashMap<u64, RangeInclusive<u64>>, num: u64) {
+        // one cluster may be referenced more than once(compressed clusters
+        // share host clusters), and merging the neighbours below only works
+        // for one cluster which isn't in the set yet
+        if ranges.values().any(|range| range.contains(&num)) {
+            return;
+        }
+
         let mut start = num;
         let mut end = num;
 
